@@ -1,5 +1,7 @@
 import XmppModel.Model.Jid
 import XmppModel.Lemmas.Jid
+import XmppModel.Lemmas.JidHeap
+import XmppModel.Lemmas.JidXml
 import XmppModel.Generated.C11
 /-!
 # C11 — JIDs are canonical
@@ -462,5 +464,197 @@ theorem C11_nonvacuous :
     (⟨[0x61, 0x62, 0x63], 1, 1⟩ : Jid).toString = [0x61, 0x40, 0x62, 0x2f, 0x63] ∧
     parse idNorm [0x61, 0x40, 0x62, 0x2f, 0x63] = .ok ⟨[0x61, 0x62, 0x63], 1, 1⟩ := by
   refine ⟨by rfl, by rfl, by rfl⟩
+
+/-! ### The XML encodings on the token level (incl. the zero JID and white space) -/
+
+open XmppModel.Xml in
+/-- **Element round trip on tokens**: the three tokens `MarshalXML` writes for an address
+`New` returned — start, character data, end — decode to that address: the tokens between the
+tags are exactly one `chars` token carrying the string form. -/
+theorem C11_elem_tokens_roundtrip {N : Norm} (g : N.Good) {l d r : Bytes} {j : Jid}
+    (h : new N l d r = .ok j) (name : Name) (attrs : List Attr) (toks : List Tok) (old : Jid)
+    (hm : marshalElemToks name attrs j = some toks) :
+    ∃ t, toks = [.start name attrs, .chars t, .stop name] ∧ strBytes t = j.toString ∧
+      unmarshalElemToks N old [.chars t] = (j, true) := by
+  unfold marshalElemToks at hm
+  rw [Option.map_eq_some_iff] at hm
+  obtain ⟨t, ht, rfl⟩ := hm
+  have hb := strBytes_of_bytesStr ht
+  obtain ⟨_, _, l', d', r', hd, _, _, _, _, _, rfl⟩ := new_ok_iff.mp h
+  obtain ⟨_, _, dne, _, _⟩ := normDomain_clean g hd
+  have hne : (mk l' d' r').toString ≠ [] := by rw [toString_mk]; exact assemble_ne_nil dne
+  have htne : t ≠ "" := by
+    intro e; rw [e, strBytes_empty] at hb; exact hne hb.symm
+  refine ⟨t, by simp [htne], hb, ?_⟩
+  have hcd : charDataOf 0 [Tok.chars t] = (mk l' d' r').toString := by
+    simp [charDataOf, hb]
+  unfold unmarshalElemToks
+  rw [hcd]
+  exact (C11_attr_elem_roundtrip g h old).2
+
+open XmppModel.Xml in
+/-- **Attribute round trip on tokens** -/
+theorem C11_attr_token_roundtrip {N : Norm} (g : N.Good) {l d r : Bytes} {j : Jid}
+    (h : new N l d r = .ok j) (name : Name) (a : Attr) (old : Jid)
+    (hm : marshalAttrTok name j = some a) :
+    a.name = name ∧ strBytes a.value = j.toString ∧ unmarshalAttrTok N old a = (j, true) := by
+  unfold marshalAttrTok at hm
+  rw [Option.map_eq_some_iff] at hm
+  obtain ⟨t, ht, rfl⟩ := hm
+  have hb := strBytes_of_bytesStr ht
+  refine ⟨rfl, hb, ?_⟩
+  unfold unmarshalAttrTok
+  rw [hb]
+  exact (C11_attr_elem_roundtrip g h old).1
+
+open XmppModel.Xml in
+/-- **The zero JID.**  `JID{}` is written as an empty attribute value, which decodes to "leave
+the receiver alone" — so into a fresh receiver it round-trips; as an element it is written
+`<j></j>` (no character data), and decoding *that* fails and leaves the receiver alone: the
+element encoding of the zero value does not round-trip.  (`N.idna [] = some []`:
+`ToUnicode("") = ""`, tested.) -/
+theorem C11_zero_jid_xml {N : Norm} (g : N.Good) (h0 : N.idna [] = some []) (name : Name)
+    (attrs : List Attr) (old : Jid) :
+    marshalAttrTok name zero = some ⟨name, ""⟩ ∧
+    unmarshalAttrTok N old ⟨name, ""⟩ = (old, true) ∧
+    unmarshalAttrTok N zero ⟨name, ""⟩ = (zero, true) ∧
+    marshalElemToks name attrs zero = some [.start name attrs, .stop name] ∧
+    unmarshalElemToks N old [] = (old, false) := by
+  refine ⟨rfl, by simp [unmarshalAttrTok, unmarshalAttr, strBytes_empty],
+    by simp [unmarshalAttrTok, unmarshalAttr, strBytes_empty], rfl, ?_⟩
+  unfold unmarshalElemToks unmarshalElem
+  have hcd : charDataOf 0 ([] : List Tok) = [] := rfl
+  rw [hcd]
+  cases hp : parse N [] with
+  | ok j => exact absurd hp (parse_nil_fails g h0 j)
+  | error e => rfl
+
+open XmppModel.Xml in
+/-- **White space and markup inside the element.**  `UnmarshalXML` parses exactly the
+character data that stands directly in the element: text and CDATA pieces are concatenated,
+comments and child elements (with everything inside them) are skipped, and **nothing is
+trimmed** — surrounding white space reaches `Parse` (which rejects it in a localpart or
+domainpart and keeps it in a resourcepart). -/
+theorem C11_elem_chardata_verbatim (N : Norm) (old : Jid) (a b c : String) (n : Name)
+    (as : List Attr) :
+    charDataOf 0 [.chars a, .comment c, .chars b] = strBytes a ++ strBytes b ∧
+    charDataOf 0 [.chars a, .start n as, .chars c, .stop n, .chars b] = strBytes a ++ strBytes b ∧
+    charDataOf 0 [.start n as, .chars c, .stop n] = [] ∧
+    unmarshalElemToks N old [.chars a] = unmarshalElem N old (strBytes a) ∧
+    (∀ inner, unmarshalElemToks N old inner = unmarshalElem N old (charDataOf 0 inner)) := by
+  refine ⟨by simp [charDataOf], by simp [charDataOf], by simp [charDataOf],
+    by simp [unmarshalElemToks, charDataOf], fun _ => rfl⟩
+
+/-! ### JIDs are values: no operation changes what another JID reports
+
+The Go representation shares backing arrays between JID values.  `Model/JidHeap.lean` models
+the sharing (arrays, windows with capacity, Go's in-place `append`); the theorems below say
+that the operations of the package nevertheless behave as the pure functions of
+`Model/Jid.lean`.  The harness checks the same statement on the real code: operation
+sequences on live values, all values re-read after every operation (clause `immutable`). -/
+
+open XmppModel.JidHeap in
+/-- regenerated fact: every function of `jid.go`/`unsafe.go` that writes through `append`,
+`copy` or a transformer's `Append` writes only into a slice it made itself; in particular
+`WithResource` copies the bare window first — the flag of the heap model -/
+theorem C11_gen_writes_on_fresh :
+    Generated.C11.writesOnFresh = some [("New", true), ("NewUnsafe", true), ("WithDomain", true),
+      ("WithLocal", true), ("WithResource", true)] ∧
+    (Generated.C11.writesOnFresh.bind (·.lookup "WithResource")) =
+      some codeFlags.copyInWithResource := by decide
+
+open XmppModel.JidHeap in
+/-- **No operation sequence changes an existing value.**  From any state whose values lie in
+allocated arrays, after any sequence of `New`/`Parse`, `Bare`, `Domain`, copies, `WithLocal`,
+`WithDomain`, `WithResource` (any arguments, any capacities) every value that existed before
+still reports exactly what it reported, and the state stays well formed. -/
+theorem C11_ops_do_not_alias (ops : List Op) (st st' : St) (wf : st.WF)
+    (h : run codeFlags st ops = some st') :
+    st'.WF ∧ (∃ more, st'.vals = st.vals ++ more) ∧
+    ∀ j ∈ st.vals, view st'.heap j = view st.heap j := by
+  induction ops generalizing st with
+  | nil =>
+    simp only [run, Option.some.injEq] at h
+    subst h
+    exact ⟨wf, ⟨[], by simp⟩, fun _ _ => rfl⟩
+  | cons op ops ih =>
+    simp only [run] at h
+    split at h
+    · rename_i st₁ hs
+      obtain ⟨wf₁, ⟨j', hv⟩, hkeep⟩ := step_spec (fl := codeFlags) rfl wf hs
+      obtain ⟨wf', ⟨more, hm⟩, hkeep'⟩ := ih st₁ wf₁ h
+      refine ⟨wf', ⟨j' :: more, by rw [hm, hv]; simp⟩, fun j hj => ?_⟩
+      rw [hkeep' j (by rw [hv]; exact List.mem_append_left _ hj), hkeep j hj]
+    · simp at h
+
+open XmppModel.JidHeap in
+/-- in particular, starting from nothing: whatever a value reports when an operation creates
+it, it reports after every continuation of the sequence -/
+theorem C11_values_immutable (ops₁ ops₂ : List Op) (st₁ st₂ : St)
+    (h₁ : run codeFlags ⟨[], []⟩ ops₁ = some st₁) (h₂ : run codeFlags st₁ ops₂ = some st₂) :
+    ∀ j ∈ st₁.vals, view st₂.heap j = view st₁.heap j := by
+  have wf₁ := (C11_ops_do_not_alias ops₁ ⟨[], []⟩ st₁ (fun j hj => by simp at hj) h₁).1
+  exact (C11_ops_do_not_alias ops₂ st₁ st₂ wf₁ h₂).2.2
+
+open XmppModel.JidHeap in
+/-- **The heap operations compute the pure functions** (refinement): the value an operation
+creates reports what the corresponding function of `Model/Jid.lean` returns for the reports of
+its receiver.  (`l`, `d`, `r` are the normalised parts: normalisation does not touch the heap.) -/
+theorem C11_heap_refines (st : St) (i : Nat) (j : HJid) (hi : st.vals[i]? = some j)
+    (hb : j.ll + j.dl ≤ j.s.len) (x : Bytes) (spare : Nat) :
+    (∀ h' j', stepVal codeFlags st (.bare i) = some (h', j') → view h' j' = (view st.heap j).bare) ∧
+    (∀ h' j', stepVal codeFlags st (.copy i) = some (h', j') → view h' j' = view st.heap j) ∧
+    (∀ h' j', stepVal codeFlags st (.withLocal i x spare) = some (h', j') →
+      view h' j' = ⟨x ++ (view st.heap j).data.drop j.ll, x.length, j.dl⟩) ∧
+    (∀ h' j', stepVal codeFlags st (.withDomain i x spare) = some (h', j') →
+      view h' j' = ⟨(view st.heap j).data.take j.ll ++ x ++ (view st.heap j).data.drop (j.ll + j.dl),
+        j.ll, x.length⟩) ∧
+    (∀ h' j', stepVal codeFlags st (.withResource i x spare) = some (h', j') →
+      view h' j' = ⟨(view st.heap j).data.take (j.ll + j.dl) ++ x, j.ll, j.dl⟩) := by
+  have hbare : read st.heap (bareS j) = (read st.heap j.s).take (j.ll + j.dl) := by
+    unfold JidHeap.read bareS
+    simp only [List.take_take]
+    rw [Nat.min_eq_left hb]
+  refine ⟨?_, ?_, ?_, ?_, ?_⟩
+  · intro h' j' h
+    simp only [stepVal, hi, Option.map_some, Option.some.injEq, Prod.mk.injEq] at h
+    obtain ⟨rfl, rfl⟩ := h
+    simp only [view, Jid.bare, hbare]
+  · intro h' j' h
+    simp only [stepVal, hi, Option.map_some, Option.some.injEq, Prod.mk.injEq] at h
+    obtain ⟨rfl, rfl⟩ := h
+    rfl
+  · intro h' j' h
+    simp only [stepVal, hi, Option.map_some, Option.some.injEq, Prod.mk.injEq] at h
+    obtain ⟨rfl, rfl⟩ := h
+    simp only [view, read_alloc]
+  · intro h' j' h
+    simp only [stepVal, hi, Option.map_some, Option.some.injEq, Prod.mk.injEq] at h
+    obtain ⟨rfl, rfl⟩ := h
+    simp only [view, read_alloc]
+  · intro h' j' h
+    simp only [stepVal, hi, Option.map_some, Option.some.injEq] at h
+    by_cases hx : x = []
+    · simp only [hx, if_true, Prod.mk.injEq] at h
+      obtain ⟨rfl, rfl⟩ := h
+      simp only [view, hbare, hx, List.append_nil]
+    · simp only [hx, if_false, codeFlags, if_true, Prod.mk.injEq] at h
+      obtain ⟨rfl, rfl⟩ := h
+      simp only [view]
+      have ha := alloc_extends st.heap (read st.heap (bareS j)) spare
+      rw [read_appendS _ _ x (by rw [ha.2.1, ha.2.2]; exact Nat.lt_succ_self _)
+        (by simp [alloc, arr_append_new]), read_alloc, hbare]
+
+open XmppModel.JidHeap in
+/-- **Without the copy the sharing shows**: if `WithResource` appended to the bare window
+directly (which is what `append` on a slice with spare capacity does), then
+`New("a","b","cd")`, `Bare()`, `WithResource("x")` would change the resourcepart the first
+value reports from `cd` to `xd` — so the fact `C11_gen_writes_on_fresh` is load-bearing. -/
+theorem C11_alias_without_copy :
+    ∃ st st', run ⟨false⟩ ⟨[], []⟩ [.newJ [0x61] [0x62] [0x63, 0x64] 0] = some st ∧
+      run ⟨false⟩ st [.bare 0, .withResource 1 [0x78] 1] = some st' ∧
+      (st.vals.map (view st.heap)) = [⟨[0x61, 0x62, 0x63, 0x64], 1, 1⟩] ∧
+      (st.vals.map (view st'.heap)) = [⟨[0x61, 0x62, 0x78, 0x64], 1, 1⟩] :=
+  ⟨_, _, rfl, rfl, rfl, rfl⟩
 
 end XmppModel.Props.C11
